@@ -328,7 +328,7 @@ def c06(pid, tier, seed):
     chk.rule = ("histories over {export(T), export_all(T), export_all_to(T, spelling)} for the 15-type universe of harness/fixed (three shared files, one holding two types that import different types of the same name, one of them holding a generic type and a sibling named like it plus a digit, "
                 "a dependency chain, a cycle, a `../` escape): every ordered pair of (type, entry point) for one directory configuration per "
                 "shard + seeded random histories of length 1..4 (thorough: 1..5) x 6 TS_RS_EXPORT_DIR settings x 6 directory spellings x "
-                "{empty, stale garbage, previous run}; one registry lifetime per history (reset hook). Oracle: final tree == canonical tree of the "
+                "{empty, stale garbage, previous run, partial previous run: every file = the stand-alone export of one of its types}; one registry lifetime per history (reset hook). Oracle: final tree == canonical tree of the "
                 "same declaration set (fresh registry, absolute directory, sorted single exports); declarations never disappear between steps; no "
                 "stale bytes; unrelated files untouched. distinct_nontrivial = distinct (configuration, initial state, entry-point/spelling "
                 "sequence, same-file-twice) signatures among histories of length >= 2")
